@@ -33,7 +33,7 @@ FORMATS = ["delimited", "fixed", "excel", "ods"]
 SEP_CONVENTIONS = [(".", ""), (".", ","), (",", "."), (",", "")]
 
 
-def make_format(kind, dec=".", ths="", allowed=None):
+def make_format(kind, dec=".", ths="", allowed=None, complete=True):
     from cutplace import data
 
     fmt = data.DataFormat(kind)
@@ -49,7 +49,8 @@ def make_format(kind, dec=".", ths="", allowed=None):
             fmt.set_property(data.KEY_THOUSANDS_SEPARATOR, ths)
     if allowed:
         fmt.set_property(data.KEY_ALLOWED_CHARACTERS, allowed)
-    fmt.validate()
+    if complete:
+        fmt.validate()
     return fmt
 
 
